@@ -114,6 +114,11 @@ m(["C14"], "ge-symbol-maps-to-gt", "src/parse_goals.rs", "            Infix::Gre
 m(["C14"], "infix-operands-swapped", "src/parse_goals.rs", "            Infix::LessThan           => { pred!(\"less_than\", left, right) },", "            Infix::LessThan           => { pred!(\"less_than\", right, left) },", "R4/operands(less_than)")
 m(["C12"], "infix-minus-operands-swapped", "src/parse_terms.rs", "            Infix::Minus    => { sfunction!(\"subtract\", left, right) },", "            Infix::Minus    => { sfunction!(\"subtract\", right, left) },", "R2/operands(subtract)")
 m(["C14", "C12"], "split-returns-right-left", "src/parse_goals.rs", "    return Ok((term1, term2));", "    return Ok((term2, term1));", "R4/left-right-split")
+# ---------------- goal tokenizer (C19) ----------------
+m(["C19"], "or-arm-drops-conjunctions-again", "src/tokenizer.rs", "                    else if child_type == TokenType::Group ||\n                            child_type == TokenType::And {", "                    else if child_type == TokenType::Group {", "R1/kinds(Or)")
+m(["C19"], "and-arm-ignores-groups", "src/tokenizer.rs", "                    else if child_type == TokenType::Group {\n                        match token_tree_to_goal(child) {\n                            Ok(g) => { operands.push(g); },\n                            Err(err) => { return Err(err); },\n                        }\n                    }\n                } // for child...\n\n                let op = Operator::And(operands);", "                    else if child_type == TokenType::LParen {\n                        match token_tree_to_goal(child) {\n                            Ok(g) => { operands.push(g); },\n                            Err(err) => { return Err(err); },\n                        }\n                    }\n                } // for child...\n\n                let op = Operator::And(operands);", "R1/kinds(And)")
+m(["C19"], "or-grouper-keeps-semicolons", "src/tokenizer.rs", "                   child_type == TokenType::And ||\n                   child_type == TokenType::Group {\n                    or_list.push(child);", "                   child_type == TokenType::And ||\n                   child_type == TokenType::Semicolon ||\n                   child_type == TokenType::Group {\n                    or_list.push(child);", "R1/kinds(Or)")
+m(["C19"], "infix-display-differs-from-scanner", "src/infix.rs", "            Infix::LessThanOrEqual => write!(f, \"<=\"),", "            Infix::LessThanOrEqual => write!(f, \"=<\"),", "R2/symbol(LessThanOrEqual)")
 # ---------------- parsers (C18) ----------------
 m(["C18"], "list-length-guard-removed", "src/s_linked_list.rs", "    if length_chars < 2 {", "    if length_chars < 1 {", "P4")
 m(["C18"], "escape-off-by-one-again", "src/parse_terms.rs", "                    if i + 1 < length_chrs {\n                        i += 1;", "                    if i < length_chrs {\n                        i += 1;", "P3")
